@@ -49,4 +49,26 @@ theorem referenced_present_refuted : ¬ ReferencedPresent false := by
 
 theorem referenced_present_fixed : ReferencedPresent true := fun b st pt k w => referenced_present b st pt k w
 
+/-! ### the with-block and transaction reuse -/
+
+/-- **body_failure_never_commits** — however the body of a with-block fails (an `Exception` or an interrupt), `__exit__` never
+commits the operations queued so far -/
+theorem body_failure_never_commits (e : BodyEnd) (active : Bool) (h : e ≠ .normal) : exitAction e active ≠ .commit := by
+  cases e <;> cases active <;> simp_all [exitAction]
+
+/-- what the property excludes: testing for `Exception` only commits a partial transaction on an interrupt -/
+theorem exception_only_exit_commits_on_interrupt : exitActionExceptionOnly .interrupt true = .commit := by decide
+
+/-- **reuse_deletes_only_own_attempt** — with the memory reset by `begin()`, a cleanly failing attempt deletes exactly the
+files of THAT attempt, whatever earlier attempts of the same object ended with -/
+theorem reuse_deletes_only_own_attempt (m : TxMem) (newFiles : List Nat) :
+    (attempt true m newFiles .cleanFailure).2 = newFiles := by
+  simp [attempt]
+
+/-- what the property excludes: without the reset, the files of an earlier ambiguous (possibly durable) attempt are deleted by a
+later clean failure -/
+theorem reuse_without_reset_deletes_earlier_files :
+    let (m1, _) := attempt false ⟨[]⟩ [1] .ambiguous
+    (attempt false m1 [2] .cleanFailure).2 = [1, 2] := by decide
+
 end DSV.CommitFault
